@@ -22,7 +22,8 @@ import socket
 
 from .. import tlc, tracecheck
 from ..core import Violation
-from ..tlaparse import parse_dump, parse_simulation_file, parse_value
+from ..fastdump import last_simulation_state, parse_dump
+from ..tlaparse import parse_value
 
 TICK = 0.25  # seconds per model tick (dyadic: float sums stay exact)
 US = 1000000  # recorded time unit: microseconds
@@ -394,9 +395,9 @@ def behaviours_from_sim(ctx, out, cfg_name, num, depth, rnd, src, seed_off):
     out.add_tlc(res)
     cases = []
     for fn in sorted(glob.glob(os.path.join(simdir, "b_*"))):
-        states = parse_simulation_file(fn)
-        if states:
-            cases.append(_case_from_state(states[-1], rnd, src))
+        st = last_simulation_state(fn, crosscheck=len(cases) < 5)
+        if st is not None:
+            cases.append(_case_from_state(st, rnd, src))
     return cases
 
 
